@@ -369,6 +369,12 @@ class Interp:
         import enum as _enum
 
         if issubclass(cls, _enum.Enum):
+            if len(args) == 1 and isinstance(args[0], SymInt):
+                # Enum(value) lookup with a symbolic value: fork over the member values; no member -> ValueError
+                for k in sorted({m.value for m in cls.__members__.values() if isinstance(m.value, int)}):
+                    if truth(SymInt.cmp("==", args[0], k)):
+                        return cls(k)
+                raise ValueError("<symbolic> is not a valid %s" % cls.__name__)
             return cls(*[unwrap(a) for a in args])
         new = self.find_in_mro(cls, "__new__")
         if isinstance(new, staticmethod):
